@@ -34,7 +34,7 @@ def plan(tier: str, seed: int, scale: float = 1.0, max_n_quick=14, max_n_thoroug
     if fuzz_mod:  # the checks of the restructuring pipeline proper (not C15 / C17, which scale the sweep down)
         from .checks import c02
 
-        specs += [("big", k) for k, (f, n) in enumerate(c02.BIG) if (n in (257, 300) and f.__name__ != "_big_ladder") or f.__name__ in ("_big_comb", "_big_nest", "_big_exits", "_big_entries")]
+        specs += [("big", k) for k, (f, n) in enumerate(c02.BIG) if (n in (257, 300) and f.__name__ != "_big_ladder") or f.__name__ in ("_big_comb", "_big_nest", "_big_exits", "_big_entries", "_big_exits_joined")]
     if tier == "quick":
         specs.append(("enum", 1, 0, 1, 1, 0))
         specs.append(("enum", 2, 0, 1, 1, 0))
